@@ -375,3 +375,173 @@ Lemma run_status_ok_proof ps chk names out : run_status ps chk names out = 0 <->
 Proof.
   unfold run_status, run_ok. destruct (patterns_ok ps chk), (run_verdict ps names out); simpl; split; auto; discriminate.
 Qed.
+
+(* ====================================================================== *)
+(* 5. runs restricted with --run / --skip (the slices of the quick tier)    *)
+(* ====================================================================== *)
+Lemma filter_flat_map {A B} (f : B -> bool) (g : A -> list B) l :
+  filter f (flat_map g l) = flat_map (fun x => filter f (g x)) l.
+Proof. induction l as [|x l IH]; simpl; [reflexivity|]. rewrite filter_app, IH. reflexivity. Qed.
+
+Lemma flat_map_ext' {A B} (f g : A -> list B) l : (forall x, f x = g x) -> flat_map f l = flat_map g l.
+Proof. intros H. induction l as [|x l IH]; simpl; [reflexivity|]. rewrite H, IH. reflexivity. Qed.
+
+Lemma selector_accept rs sk n : selector rs sk n = C08_Model.accept rs sk n.
+Proof. reflexivity. Qed.
+
+(* filtering batch by batch = filtering what an unrestricted run would send *)
+Lemma batches_sel_filter f cl sv lib :
+  batches_sel f cl sv (group_cases lib) = filter (fun p => f (p_name p)) (executed cl sv lib).
+Proof.
+  unfold batches_sel, executed. rewrite filter_flat_map. apply flat_map_ext'. intros ci.
+  rewrite filter_flat_map. apply flat_map_ext'. intros si.
+  rewrite filter_flat_map. reflexivity.
+Qed.
+
+Lemma executed_sel_filter rs sk cl sv lib :
+  executed_sel rs sk cl sv lib = filter (fun p => C08_Model.accept rs sk (p_name p)) (executed cl sv lib).
+Proof. unfold executed_sel. rewrite batches_sel_filter. reflexivity. Qed.
+
+Lemma filter_map_name (f : bytes -> bool) (l : list perm) :
+  map p_name (filter (fun p => f (p_name p)) l) = filter f (map p_name l).
+Proof.
+  induction l as [|p l IH]; simpl; [reflexivity|].
+  destruct (f (p_name p)); simpl; rewrite IH; reflexivity.
+Qed.
+
+Lemma NoDup_filter' {A} (f : A -> bool) l : NoDup l -> NoDup (filter f l).
+Proof.
+  induction 1 as [|x l NI ND IH]; simpl; [constructor|].
+  destruct (f x); [constructor|]; auto. intros H. apply NI. apply filter_In in H. apply H.
+Qed.
+
+Theorem slice_names_spec_proof : forall cfg ss cl sv ps rs sk pr total,
+  predicted_slice cfg ss cl sv ps rs sk = Good (pr, total) ->
+  (forall c, C06_Spec.spec_member cfg c -> In (C06_Model.c_protocol c) c07_all_protocols) ->
+  NoDup (pr_names pr) /\
+  (forall n, In n (pr_names pr) <->
+     (exists q, expected_perm cfg ss cl sv q /\ p_name q = n) /\
+     (rs = [] \/ C08_Spec.some_glob rs n) /\ ~ C08_Spec.some_glob sk n) /\
+  (forall n, In n (pr_checked pr) <-> exists q, expected_perm cfg ss cl sv q /\ p_name q = n) /\
+  (forall n, In n (pr_marked pr) <-> In n (pr_names pr) /\ C08_Spec.some_glob ps n) /\
+  total = length (pr_names pr).
+Proof.
+  intros cfg ss cl sv ps rs sk pr total H HP. unfold predicted_slice, predicted_slices in H.
+  destruct (C06_Model.parse_config cfg) as [cs|] eqn:HC; [|discriminate].
+  destruct (new_library ss (map conv cs) (run_mode cl sv)) as [lib|] eqn:HL; [|discriminate].
+  destruct (distinct_names (map p_name (executed cl sv lib))) eqn:HD; [|discriminate].
+  simpl in H. unfold slice_view in H. injection H as <- <-. simpl.
+  change (selector rs sk) with (C08_Model.accept rs sk).
+  pose proof (executed_exact_proof cl sv lib) as EX.
+  pose proof (all_perm_members cfg ss cl sv lib HP (lib_members _ _ _ _ _ HC HL)) as AM.
+  assert (CHK : forall n, In n (map p_name (all_permutations cl sv lib)) <->
+                          exists q, expected_perm cfg ss cl sv q /\ p_name q = n).
+  { intros n. rewrite in_map_iff. split; intros (q & A & B); exists q.
+    - split; [apply AM, B|exact A].
+    - split; [exact B|apply AM, A]. }
+  assert (NM : forall n, In n (map p_name (all_permutations cl sv lib)) <->
+                         In n (map p_name (executed cl sv lib))).
+  { intros n. split; apply Permutation_in, Permutation_map; [symmetry|]; exact EX. }
+  rewrite batches_sel_filter, filter_map_name.
+  split; [apply NoDup_filter', distinct_names_sound, HD|]. split; [|split; [exact CHK|split]].
+  - intros n. rewrite filter_In, <- NM, CHK, C08_Proofs.accept_iff_proof. tauto.
+  - intros n. rewrite filter_In, kf_marks_iff. reflexivity.
+  - apply Permutation_length, filter_perm, Permutation_map. symmetry. exact EX.
+Qed.
+
+(* without --run / --skip a slice is the whole run *)
+Lemma filter_all {A} (f : A -> bool) l : (forall x, f x = true) -> filter f l = l.
+Proof. intros H. induction l as [|x l IH]; simpl; [reflexivity|]. rewrite H, IH. reflexivity. Qed.
+
+Theorem slice_nil_proof : forall cfg ss cl sv ps,
+  predicted_slice cfg ss cl sv ps [] [] =
+  match predicted_run cfg ss cl sv ps with
+  | Good pr => Good (pr, length (pr_checked pr))
+  | Bad e => Bad e
+  end.
+Proof.
+  intros. unfold predicted_slice, predicted_slices, predicted_run.
+  destruct (C06_Model.parse_config cfg) as [cs|]; [|reflexivity].
+  destruct (new_library ss (map conv cs) (run_mode cl sv)) as [lib|]; [|reflexivity].
+  destruct (distinct_names (map p_name (executed cl sv lib))); [|reflexivity].
+  simpl. unfold slice_view. simpl. rewrite batches_sel_filter.
+  rewrite (filter_all (fun p => selector [] [] (p_name p))) by reflexivity.
+  rewrite (filter_all (selector [] [])) by reflexivity. reflexivity.
+Qed.
+
+(* several selections at once = each of them alone (the library is shared, nothing else) *)
+Theorem slices_each_proof : forall cfg ss cl sv ps sels l,
+  predicted_slices cfg ss cl sv ps sels = Good l ->
+  Forall2 (fun sel x => predicted_slice cfg ss cl sv ps (fst sel) (snd sel) = Good x) sels l.
+Proof.
+  intros cfg ss cl sv ps sels l H. unfold predicted_slice, predicted_slices in *.
+  destruct (C06_Model.parse_config cfg) as [cs|]; [|discriminate].
+  destruct (new_library ss (map conv cs) (run_mode cl sv)) as [lib|]; [|discriminate].
+  destruct (distinct_names (map p_name (executed cl sv lib))); [|discriminate].
+  injection H as <-. induction sels as [|[rs sk] sels IH]; simpl; constructor; [reflexivity|exact IH].
+Qed.
+
+Lemma patterns_ok_sel_nil rs sk chk :
+  patterns_ok_sel [] rs sk chk = true <->
+  (rs = [] \/ C08_Model.unmatched (C08_Model.build rs) chk = []) /\
+  (sk = [] \/ C08_Model.unmatched (C08_Model.build sk) chk = []).
+Proof.
+  unfold patterns_ok_sel, C08_Model.run_checks.
+  change (C08_Model.trie_length (C08_Model.build [])) with 0%nat.
+  change (0 <? 0)%nat with false. simpl. unfold C08_Model.has_unmatched.
+  destruct rs as [|r rs].
+  - destruct sk as [|s sk]; [tauto|].
+    destruct (C08_Model.unmatched (C08_Model.build (s :: sk)) chk); split; auto; try discriminate.
+    intros [_ [?|?]]; discriminate.
+  - destruct (C08_Model.unmatched (C08_Model.build (r :: rs)) chk).
+    + destruct sk as [|s sk]; [tauto|].
+      destruct (C08_Model.unmatched (C08_Model.build (s :: sk)) chk); split; auto; try discriminate.
+      intros [_ [?|?]]; discriminate.
+    + split; [discriminate|]. intros [[?|?] _]; discriminate.
+Qed.
+
+(* the verdict of a restricted run: every pattern list is well-formed against the whole space, and each
+   SENT case meets its listing *)
+Theorem slice_ok_iff_proof : forall ps rs sk chk names out,
+  NoDup names ->
+  (slice_ok ps rs sk chk names out = true <->
+     patterns_ok_sel ps rs sk chk = true /\
+     forall n, In n names ->
+       (C08_Spec.some_glob ps n <-> ran_and_failed (out n)) /\ (~ C08_Spec.some_glob ps n <-> passed (out n))).
+Proof.
+  intros ps rs sk chk names out ND. unfold slice_ok.
+  rewrite andb_true_iff, (run_verdict_iff _ _ _ ND). split; intros [PO V]; (split; [exact PO|]); intros n Hn.
+  - destruct (V n Hn) as [HF HP]. split; split; auto.
+    + intros RF. destruct (kf_marks ps n) eqn:K; [apply kf_marks_iff, K|].
+      exfalso. apply (passed_not_failed (out n)); [|exact RF]. apply HP. intros G.
+      apply kf_marks_iff in G. congruence.
+    + intros P G. apply (passed_not_failed _ P), HF, G.
+  - destruct (V n Hn) as [HF HP]. split; [apply HF|apply HP].
+Qed.
+
+(* with the empty list of the reference pair: success = run/skip patterns each match something of the
+   whole space, and every sent case passed *)
+Theorem slice_all_pass_proof : forall rs sk chk names out,
+  NoDup names ->
+  (slice_ok [] rs sk chk names out = true <->
+     (rs = [] \/ C08_Model.unmatched (C08_Model.build rs) chk = []) /\
+     (sk = [] \/ C08_Model.unmatched (C08_Model.build sk) chk = []) /\
+     forall n, In n names -> passed (out n)).
+Proof.
+  intros rs sk chk names out ND. rewrite (slice_ok_iff_proof _ _ _ _ _ _ ND), patterns_ok_sel_nil.
+  assert (NG : forall n, ~ C08_Spec.some_glob [] n) by (intros n (p & [] & _)).
+  split.
+  - intros [[A B] V]. split; [exact A|split; [exact B|]]. intros n Hn. apply (V n Hn), NG.
+  - intros (A & B & V). split; [tauto|]. intros n Hn. split; split.
+    + intros G. destruct (NG n G).
+    + intros RF. exfalso. exact (passed_not_failed _ (V n Hn) RF).
+    + intros _. apply V, Hn.
+    + intros _. apply NG.
+Qed.
+
+Lemma slice_status_ok_proof ps rs sk chk names out :
+  slice_status ps rs sk chk names out = 0 <-> slice_ok ps rs sk chk names out = true.
+Proof.
+  unfold slice_status, slice_ok.
+  destruct (patterns_ok_sel ps rs sk chk), (run_verdict ps names out); simpl; split; auto; discriminate.
+Qed.
